@@ -43,10 +43,10 @@ def in64(v):
 FNS = []
 
 
-def F(id, names, module, params, res, tmpl, spec, refs=(), fam="list", imports=None, grid=None, note=None, model=None):
+def F(id, names, module, params, res, tmpl, spec, refs=(), fam="list", imports=None, grid=None, note=None, model=None, tag=None):
     """names: {'v': ddp function reached with variable arguments, 'x': with expression arguments} """
     FNS.append(dict(id=id, names=names, module=module, params=params, res=res, tmpl=tmpl, spec=spec, refs=tuple(refs), fam=fam,
-                    imports=imports or ["Duden/" + module], grid=grid, note=note, model=model or id))
+                    imports=imports or ["Duden/" + module], grid=grid, note=note, model=model or id, tag=tag))
 
 
 # ================================================================================================
@@ -228,7 +228,8 @@ T("Lösche_Text", "Lösche_Text", ["T", "Z"], None, "Lösche das Element an der 
   lambda t, i: ok(None, t[:i - 1] + t[i:], i) if 1 <= i <= len(t) else None, refs=[0])
 T("Lösche_Text_Bereich", "Lösche_Text_Bereich", ["T", "Z", "Z"], None, "Lösche alle Elemente im Bereich von {1} bis {2} aus {0}.",
   lambda t, s, e: ok(None, t[:s - 1] + t[e:], s, e) if 1 <= s <= e <= len(t) else None, refs=[0])
-T("Fülle_Text", "Fülle_Text", ["T", "B"], None, "Fülle {0} mit {1}.", lambda t, z: ok(None, z * len(t), z), refs=[0])
+T("Fülle_Text", "Fülle_Text", ["T", "B"], None, "Fülle {0} mit {1}.", lambda t, z: ok(None, z * len(t), z), refs=[0],
+  tag=lambda t, z: "shrinks" if any(len(c.encode()) > len(z.encode()) for c in t) else "no-shrink")
 T("Buchstaben_Text_BuchstabenListe", {"v": "Buchstaben_TextRef_BuchstabenListe", "x": "Buchstaben_Text_BuchstabenListe"}, ["T"], "BL", "(die Buchstaben in {0})", lambda t: ok(list(t), t))
 T("Buchstaben_Text_TextListe", {"v": "Buchstaben_TextRef_TextListe", "x": "Buchstaben_Text_TextListe"}, ["T"], "TL", "(die Buchstaben in {0} als Text Liste)", lambda t: ok(list(t), t))
 T("Text_Index_Von_Buchstabe", {"v": "Text_Index_Von_Buchstabe_Ref", "x": "Text_Index_Von_Buchstabe"}, ["T", "B"], "Z", "(der Index von {1} in {0})",
@@ -256,8 +257,10 @@ T("Kleinschreiben_Wert", {"v": "Kleinschreiben_Wert", "x": "Kleinschreiben_Wert"
 T("Kleinschreiben", "Kleinschreiben", ["T"], None, "Schreibe {0} klein.", lambda t: ok(None, _klein(t)), refs=[0], grid="case")
 T("Polster_Links", {"v": "Polster_Links", "x": "Polster_Links"}, ["T", "B", "Z"], "T", "({0} mit {2} {1} links gepolstert)", lambda t, z, n: ok(z * max(0, n - len(t)) + t, t, z, n))
 T("Polster_Rechts", {"v": "Polster_Rechts", "x": "Polster_Rechts"}, ["T", "B", "Z"], "T", "({0} mit {2} {1} rechts gepolstert)", lambda t, z, n: ok(t + z * max(0, n - len(t)), t, z, n))
-T("Spalte", {"v": "Spalte", "x": "Spalte"}, ["T", "B"], "TL", "({0} an {1} gespalten)", lambda t, z: ok(t.split(z), t, z) if t else None)
-T("Spalte_Text", {"v": "Spalte_Text", "x": "Spalte_Text"}, ["T", "T"], "TL", "({0} an {1} gespalten)", lambda t, s: ok(t.split(s), t, s) if t and s else None)
+T("Spalte", {"v": "Spalte", "x": "Spalte"}, ["T", "B"], "TL", "({0} an {1} gespalten)", lambda t, z: ok(t.split(z), t, z) if t else None,
+  tag=lambda t, z: "single-trailing-separator" if len(t) >= 2 and t[-1] == z and t[-2] != z else "other")
+T("Spalte_Text", {"v": "Spalte_Text", "x": "Spalte_Text"}, ["T", "T"], "TL", "({0} an {1} gespalten)", lambda t, s: ok(t.split(s), t, s) if t and s else None,
+  tag=lambda t, s: "separator-occurs" if s and s in t else "separator-absent")
 
 
 def _finde(t, s):
@@ -276,7 +279,8 @@ def _finde(t, s):
     return ok(lambda printed: printed in acc, t, s)
 
 
-T("Finde_Subtext", "Finde_Subtext", ["T", "T"], "ZL", "(alle Indizes vom Subtext {1} in {0})", _finde)
+T("Finde_Subtext", "Finde_Subtext", ["T", "T"], "ZL", "(alle Indizes vom Subtext {1} in {0})", _finde,
+  tag=lambda t, s: "equal-length" if len(t) == len(s) else "occurs-at-end" if s and t.endswith(s) else "other")
 T("Verbinden_Text", {"v": "Verbinden_Text", "x": "Verbinden_Text"}, ["TL", "B"], "T", "({0} mit dem Trennzeichen {1} zum Text verbunden)", lambda l, z: ok(z.join(l), l, z))
 T("Verbinden_Buchstabe", {"v": "Verbinden_Buchstabe", "x": "Verbinden_Buchstabe"}, ["BL", "B"], "T", "({0} mit dem Trennzeichen {1} zum Text verbunden)", lambda l, z: ok(z.join(l), l, z))
 T("Verbinden_Zahl", {"v": "Verbinden_Zahl", "x": "Verbinden_Zahl"}, ["ZL", "B"], "T", "({0} mit dem Trennzeichen {1} zum Text verbunden)", lambda l, z: ok(z.join(map(str, l)), l, z))
